@@ -767,7 +767,7 @@ func runC10(c *Ctx) {
 func popGen(maxN int, big bool) func(r *Rng) []*corev1.Pod {
 	return func(r *Rng) []*corev1.Pod {
 		n := r.Intn(maxN + 1)
-		if big && r.Chance(1, 25) {
+		if big && r.Chance(1, 12) {
 			n = pick(r, []int{2999, 3000, 3001, 3100})
 		}
 		var ps []*corev1.Pod
